@@ -818,7 +818,13 @@ func cutAt(b []byte, cuts []int) [][]byte {
 func init() {
 	register(&Stream{Name: "c04seg", Gen: genC04, Replay: func(l string) {
 		f := strings.Fields(l)
-		if len(f) >= 3 && (f[0] == "seg" || f[0] == "@seg" || f[0] == "@lock") {
+		if len(f) >= 3 && f[0] == "seg" && f[1] == "ldap" {
+			var segs [][]byte
+			for _, h := range f[2:] {
+				segs = append(segs, unhx(h))
+			}
+			runReqX("ldap", segs, nil, false)
+		} else if len(f) >= 3 && (f[0] == "seg" || f[0] == "@seg" || f[0] == "@lock") {
 			var segs [][]byte
 			for _, h := range f[2:] {
 				segs = append(segs, unhx(h))
